@@ -106,7 +106,8 @@ ASSUME \A v \in ModelPayloads :
                 IN ~Usb2TokenOk(w2 % 256, w2 \div 256)
           /\ \A n \in 0..7 : LET pb == FlipBit(PidByte(PID_OUT), n)
                              IN ExpectToken(<<pb, w % 256, w \div 256>>, v % 128).k \in {"none", "sof"} \/ PidOk(pb)
-          /\ ExpectToken(<<PidByte(PID_OUT), w % 256, w \div 256>>, (v + 1) % 128) = NoEvent
+          /\ ExpectToken(<<PidByte(PID_OUT), w % 256, w \div 256>>, (v + 1) % 128)
+                = (IF FilterByAddress THEN NoEvent ELSE Token(PID_OUT, v % 128, v \div 128))   \* foreign address
 
 \* handshakes: exactly the four one-byte packets, out of all 256 first bytes
 ASSUME {b \in 0..255 : ExpectHandshake(<<b>>) # NoEvent} = {210, 90, 30, 150}      \* D2 5A 1E 96
